@@ -44,7 +44,7 @@ func checkRoundTrip(c Case) error {
 		tree = append(fsx.Tree{{Path: ".terraformignore", Kind: "file", Content: *c.Rules, Mode: 0644, Sec: 1500000000}}, tree...)
 	}
 	vars := map[string]string{"R": r}
-	if err := fsx.Materialise(src, tree, vars); err != nil {
+	if err := fsx.Materialise(src, fsx.RawNames(tree), vars); err != nil {
 		if os.Getuid() != 0 {
 			ev.Label("tree-not-materialisable-unprivileged")
 			return nil
